@@ -269,6 +269,8 @@ theorem Conf.stepOp {r : Realm} (h : Conf P r) (op : Op)
   | join k isLocal details roles cap =>
     have hk := hj k isLocal details roles cap rfl
     rw [stepOp_join]
+    split
+    · exact h
     refine ⟨?_, ?_, h.2.2⟩
     · intro c hc
       rcases List.mem_append.mp hc with hc | hc
@@ -289,6 +291,8 @@ theorem Conf.stepOp {r : Realm} (h : Conf P r) (op : Op)
     · simpa [e] using h.1 c0 hc0
   | drop k =>
     rw [stepOp_drop]
+    split
+    · exact h
     split <;> exact h
   | stall k =>
     rw [stepOp_stall]
